@@ -155,7 +155,7 @@ pub fn def(ctx: &Ctx) -> PropDef {
         let info = ty.info();
         subs.push(PSub::boxed(
             format!("u64/{}", ty.name()),
-            t.pick(1500, 100_000),
+            t.pick(4000, 400_000),
             move || (gens::interesting_u64(), prop_oneof![Just(300usize), 1usize..=40, Just(700usize)]).prop_map(move |(x, words)| U64Case { ty, x, words }).boxed(),
             check_u64,
         ));
@@ -167,7 +167,7 @@ pub fn def(ctx: &Ctx) -> PropDef {
         let zb = if info.linear { 2 } else { 0 };
         subs.push(PSub::boxed(
             format!("source/{}", ty.name()),
-            t.pick(1500, 60_000),
+            t.pick(4000, 300_000),
             move || {
                 let fail = prop_oneof![
                     5 => Just(None),
